@@ -1,8 +1,17 @@
 """Per-property composition of rules (DESIGN.md section 6)."""
 from . import pdb
 from . import rules_tables as T
+from . import rules_prng as P
+from . import rules_iface as I
+from . import rules_decode as D
+from . import rules_cb as CB
 
 PROPS = {}
+MAIN3 = [1, 2, 3]        # RS-2^8, RS-2^m, LDPC-Staircase
+RS = [1, 2]
+DECODE_DISPATCHERS = ['of_decode_with_new_symbol', 'of_set_available_symbols', 'of_finish_decoding',
+                      'of_is_decoding_complete', 'of_get_source_symbols_tab', 'of_set_callback_functions',
+                      'of_set_fec_parameters', 'of_release_codec_instance']
 
 
 def prop(pid):
@@ -20,6 +29,99 @@ def programs(ctx):
     for p in progs:
         ctx.use_program(p)
     return progs
+
+
+@prop('C01')
+def c01(ctx):
+    for prog in programs(ctx):
+        I.r_layout(ctx, prog, MAIN3)
+        I.r_dispatch(ctx, prog, MAIN3, DECODE_DISPATCHERS)
+        D.r_dup(ctx, prog, MAIN3)
+        D.r_setavail(ctx, prog, MAIN3)
+        D.r_complete(ctx, prog, MAIN3)
+        CB.r_srcstore(ctx, prog, MAIN3)
+        CB.r_srcptr(ctx, prog, MAIN3)
+    return dict(
+        explanation='Structural necessary conditions of "a decoder never hands back a wrong source symbol", over all paths of the '
+        'compiled library: control-block layouts agree with the views the generic decoders use (R-LAYOUT), every decode-side '
+        'dispatcher sends each codec to its own family (R-DISPATCH), duplicates change no state (R-DUP), the bulk submission API '
+        'is the same registration as n per-symbol submissions (R-SETAVAIL), "complete" implies all k slots filled and never '
+        'reverts (R-COMPLETE), and nothing but received pointers and decoded buffers ever enters a symbol table (R-SRCSTORE); '
+        'of_get_source_symbols_tab copies exactly k pointers (R-SRCPTR).',
+        decides=['layout/dispatch/duplicate/API-equivalence/completion/table-ownership clauses for RS-2^8, RS-2^m, LDPC-Staircase'],
+        not_decided=['that the decoded bytes are right (GF linear algebra, peeling and Gaussian elimination are value-level)'])
+
+
+@prop('C02')
+def c02(ctx):
+    for prog in programs(ctx):
+        D.r_rs_threshold(ctx, prog, RS)
+        D.r_dup(ctx, prog, RS)
+        D.r_setavail(ctx, prog, RS)
+        D.r_complete(ctx, prog, RS)
+        T.r_tables(ctx, prog)
+        T.r_poly(ctx, prog)
+    return dict(
+        explanation='R-RS-THRESHOLD: both RS finish_decoding routines run the matrix decoder only with >= k symbols, return FAILURE and '
+        'leave the session unfinished with fewer, and the per-symbol routines trigger decoding once k distinct symbols are counted; '
+        'distinctness rests on R-DUP, API independence on R-SETAVAIL, completion flag discipline on R-COMPLETE; R-TABLES/R-POLY: the '
+        'fields the generator matrices are built in are the documented ones.',
+        decides=['decode triggered at k distinct symbols; fewer than k => FAILURE and never complete; both submission APIs register '
+                 'the same state; field tables'],
+        not_decided=['that the generator is the Vandermonde-derived MDS matrix and that inversion succeeds for every k-subset (value-level)',
+                     'n <= 2^m-1 for the GF(2^m) codec is not enforced by the code (known finding of C09)'])
+
+
+@prop('C04')
+def c04(ctx):
+    for prog in programs(ctx):
+        D.r_dup(ctx, prog, [3])
+        D.r_complete(ctx, prog, [3])
+        I.r_layout(ctx, prog, [3])
+        D.r_retset(ctx, prog, [3])
+    return dict(
+        explanation='Only the mechanisms C04 names that are visible in the shape of the code: duplicate suppression dominates every '
+        'state update of the iterative decoder (R-DUP), decoding is reported complete exactly when the scan over the k source slots '
+        'finds none empty and never reverts (R-COMPLETE b, c), the LDPC control block matches the generic view (R-LAYOUT).',
+        decides=['duplicates are ignored; completion predicate is "all k source slots filled", monotone'],
+        not_decided=['that the set of available symbols equals the peeling closure for every arrival order (a fixpoint statement about '
+                     'counters and the sparse matrix: needs execution or a model)'])
+
+
+@prop('C10')
+def c10(ctx):
+    for prog in programs(ctx):
+        D.r_finish_truth(ctx, prog, MAIN3)
+        D.r_retset(ctx, prog, MAIN3)
+        D.r_complete(ctx, prog, MAIN3)
+        D.r_rs_threshold(ctx, prog, RS)
+        CB.r_srcptr(ctx, prog, MAIN3)
+        CB.r_srcstore(ctx, prog, MAIN3)
+    return dict(
+        explanation='One rule per sentence of C10. R-FINISH-TRUTH: with error edges removed, finish_decoding returns OK only on paths '
+        'where the session is complete and FAILURE only where a completion test made after the last table update said no. R-RETSET: '
+        'the per-symbol and bulk submission routines return only OK on conforming use. R-COMPLETE: is_decoding_complete is the flag / '
+        'the scan over all k slots, set only when all sources are available, monotone. R-SRCPTR + R-SRCSTORE(received): the pointer '
+        'the application supplied is what the table holds and what get_source_symbols_tab copies out.',
+        decides=['status/completion agreement on every path; return sets; completion predicate; pointer identity of received source symbols'],
+        not_decided=['that the counters and tables the status is derived from are right on every history (C01/C04 value-level parts)'])
+
+
+@prop('C11')
+def c11(ctx):
+    for prog in programs(ctx):
+        CB.r_cb(ctx, prog, MAIN3)
+        CB.r_srcstore(ctx, prog, MAIN3)
+        D.r_complete(ctx, prog, MAIN3)
+    return dict(
+        explanation='R-CB: every call site of the decoded-source-symbol callback passes (context, symbol length, ESI < k), is guarded '
+        'by callback != NULL, its result receives the decoded bytes and becomes the table entry, and a NULL result cannot flow to an '
+        'error-only edge (the library allocates instead). R-SRCSTORE: every store of a decoded source symbol into a table goes '
+        'through the callback-or-allocate choice into an empty slot; received symbols never do. With R-COMPLETE(c) (a filled slot is '
+        'never emptied) this gives at most one call per decoded symbol.',
+        decides=['call-site contract at all call sites; every decoded-source store consults the callback; NULL fallback'],
+        not_decided=['the history-level count "exactly one call per decoded symbol" is argued from once-per-site + empty-slot guards + '
+                     'monotone tables, not observed'])
 
 
 @prop('C14')
@@ -44,9 +146,6 @@ def c14(ctx):
         exhaustive=True)
 
 
-from . import rules_prng as P
-
-
 @prop('C19')
 def c19(ctx):
     extra = {}
@@ -69,27 +168,3 @@ def c19(ctx):
         not_decided=['the floating-point claims (result in 0..maxv-1, equals exact floor below 2^53): rounding behaviour of the double '
                      'expression is not analysed'],
         extra=extra)
-
-
-from . import rules_iface as I
-
-
-def _dbg(ctx):
-    """scratch: run interface rules"""
-    for prog in programs(ctx):
-        I.r_dispatch(ctx, prog)
-        I.r_layout(ctx, prog)
-        I.r_apiguard(ctx, prog)
-        I.r_retdef(ctx, prog)
-        from . import rules_decode as D
-        allc = [1, 2, 3, 5]
-        D.r_dup(ctx, prog, allc)
-        D.r_setavail(ctx, prog, allc)
-        D.r_rs_threshold(ctx, prog, allc)
-        D.r_complete(ctx, prog, allc)
-        D.r_retset(ctx, prog, allc)
-        D.r_finish_truth(ctx, prog, allc)
-    return dict(explanation='x', decides=[], not_decided=[])
-
-
-PROPS['DBG'] = _dbg
